@@ -266,6 +266,8 @@ func genC08() {
 	}
 	g.def("compare_ends_with_names", "bool", c08Bool(last), "comparePackages, "+g.pos(cp)+": the comparator ends with cmp.Compare on the two names")
 	genC08Index(g)
+	g.def("dq_cache_node", "list string", coqStrList(c08DqNode()),
+		"disqualifyCache.find / fill at a leaf of the trie: what a node holds, how an entry is found, what fill stores")
 	g.write()
 }
 
@@ -463,4 +465,156 @@ func genC08Index(g *gen) {
 	}
 	g.def("get_indexes_collect", "list string", coqStrList(collect),
 		"GetRepositoryIndexes, "+g.pos(gri)+": how the per-repository results are collected into the returned list")
+}
+
+// c08DqNode describes what a LEAF of the disqualification trie holds and how find / fill use it
+// (shameful_global_caches.go).  Since fix 3541d7b (was finding C08-F2) a node keeps one entry per GROUPING of
+// the indexes by architecture: find returns the entry whose grouping equals the request's (same architectures,
+// the same index objects in the same order), fill appends an entry with a COPY of the grouping.  The former
+// shape (one set per node) and anything else are described as such, not refused: the description is pinned by
+// c08_source_shape_dq_node / c14_source_shape, so a revert changes a checked statement.
+func c08DqNode() []string {
+	const caches = "pkg/apk/apk/shameful_global_caches.go"
+	norm := func(n ast.Node) string { return strings.Join(strings.Fields(exprText(n)), " ") }
+	leaf := func(fd *ast.FuncDecl) (*ast.BlockStmt, string, string) {
+		if fd == nil || fd.Type.Params == nil || len(fd.Body.List) == 0 {
+			return nil, "", ""
+		}
+		var ps []string
+		for _, f := range fd.Type.Params.List {
+			for _, id := range f.Names {
+				ps = append(ps, id.Name)
+			}
+		}
+		if len(ps) == 0 {
+			return nil, "", ""
+		}
+		is, ok := fd.Body.List[0].(*ast.IfStmt)
+		if !ok || norm(is.Cond) != "len("+ps[0]+") == 0" {
+			return nil, "", ""
+		}
+		second := ""
+		if len(ps) >= 2 {
+			second = ps[1]
+		}
+		return is.Body, second, ps[len(ps)-1]
+	}
+	var out []string
+
+	find := findFunc(caches, "disqualifyCache", "find")
+	recv := c08Recv(find)
+	if body, grouping, _ := leaf(find); body == nil {
+		out = append(out, "find:other")
+	} else if len(body.List) == 1 {
+		if r, ok := body.List[0].(*ast.ReturnStmt); ok && len(r.Results) == 1 && strings.HasPrefix(norm(r.Results[0]), recv+".") {
+			out = append(out, "find:the-one-set-of-the-node")
+		} else {
+			out = append(out, "find:other:"+norm(body.List[0]))
+		}
+	} else {
+		desc := "find:other"
+		equal := "equal:other"
+		if rs, ok := body.List[0].(*ast.RangeStmt); ok && strings.HasPrefix(norm(rs.X), recv+".") && rs.Value != nil && len(rs.Body.List) == 1 && len(body.List) == 2 {
+			e := exprText(rs.Value)
+			last, okLast := body.List[1].(*ast.ReturnStmt)
+			if is, ok := rs.Body.List[0].(*ast.IfStmt); ok && okLast && len(last.Results) == 1 && norm(last.Results[0]) == "nil" && is.Else == nil && len(is.Body.List) == 1 {
+				if c, ok := is.Cond.(*ast.CallExpr); ok && len(c.Args) == 2 {
+					a0, a1 := norm(c.Args[0]), norm(c.Args[1])
+					stored := ""
+					if strings.HasPrefix(a0, e+".") && a1 == grouping {
+						stored = a0
+					} else if strings.HasPrefix(a1, e+".") && a0 == grouping {
+						stored = a1
+					}
+					if r, ok := is.Body.List[0].(*ast.ReturnStmt); ok && stored != "" && len(r.Results) == 1 && strings.HasPrefix(norm(r.Results[0]), e+".") && norm(r.Results[0]) != stored {
+						desc = "find:entry-with-an-equal-grouping"
+						// the comparison: maps.EqualFunc(a, b, func(x, y) bool { return slices.Equal(x, y) }) on the function's two parameters
+						if id, ok := c.Fun.(*ast.Ident); ok {
+							if f := load(caches); f != nil {
+								for _, d := range f.Decls {
+									fd, ok := d.(*ast.FuncDecl)
+									if !ok || fd.Recv != nil || fd.Name.Name != id.Name || fd.Type.Params == nil || len(fd.Body.List) != 1 {
+										continue
+									}
+									var ps []string
+									for _, fl := range fd.Type.Params.List {
+										for _, n := range fl.Names {
+											ps = append(ps, n.Name)
+										}
+									}
+									if r, ok := fd.Body.List[0].(*ast.ReturnStmt); ok && len(ps) == 2 && len(r.Results) == 1 {
+										if ce, ok := r.Results[0].(*ast.CallExpr); ok && norm(ce.Fun) == "maps.EqualFunc" && len(ce.Args) == 3 && norm(ce.Args[0]) == ps[0] && norm(ce.Args[1]) == ps[1] {
+											if fl, ok := ce.Args[2].(*ast.FuncLit); ok && len(fl.Body.List) == 1 && fl.Type.Params != nil {
+												var qs []string
+												for _, p := range fl.Type.Params.List {
+													for _, n := range p.Names {
+														qs = append(qs, n.Name)
+													}
+												}
+												if rr, ok := fl.Body.List[0].(*ast.ReturnStmt); ok && len(qs) == 2 && len(rr.Results) == 1 && norm(rr.Results[0]) == "slices.Equal("+qs[0]+", "+qs[1]+")" {
+													equal = "equal:same-architectures-and-the-same-index-objects-in-the-same-order"
+												}
+											}
+										}
+									}
+								}
+							}
+						}
+					}
+				}
+			}
+		}
+		out = append(out, desc, equal)
+	}
+
+	fill := findFunc(caches, "disqualifyCache", "fill")
+	frecv := c08Recv(fill)
+	if body, grouping, dq := leaf(fill); body == nil {
+		out = append(out, "fill:other")
+	} else {
+		desc := "fill:other"
+		if len(body.List) == 2 {
+			if as, ok := body.List[0].(*ast.AssignStmt); ok && len(as.Lhs) == 1 && len(as.Rhs) == 1 && strings.HasPrefix(norm(as.Lhs[0]), frecv+".") && norm(as.Rhs[0]) == dq {
+				desc = "fill:replaces-the-one-set"
+			}
+		}
+		// X := make(map..., len(grouping)); for k, v := range grouping { X[k] = slices.Clone(v) }; recv.F = append(recv.F, T{..: X, ..: dq})
+		var copyVar string
+		cloned := false
+		for _, st := range body.List {
+			switch x := st.(type) {
+			case *ast.AssignStmt:
+				if len(x.Lhs) == 1 && len(x.Rhs) == 1 {
+					if c, ok := x.Rhs[0].(*ast.CallExpr); ok && norm(c.Fun) == "make" && len(c.Args) >= 1 && strings.HasPrefix(norm(c.Args[0]), "map[") {
+						copyVar = norm(x.Lhs[0])
+					}
+					if c, ok := x.Rhs[0].(*ast.CallExpr); ok && norm(c.Fun) == "append" && len(c.Args) == 2 && norm(c.Args[0]) == norm(x.Lhs[0]) && strings.HasPrefix(norm(x.Lhs[0]), frecv+".") {
+						if cl, ok := c.Args[1].(*ast.CompositeLit); ok && len(cl.Elts) == 2 {
+							var vals []string
+							for _, el := range cl.Elts {
+								if kv, ok := el.(*ast.KeyValueExpr); ok {
+									vals = append(vals, norm(kv.Value))
+								}
+							}
+							switch {
+							case len(vals) == 2 && copyVar != "" && cloned && ((vals[0] == copyVar && vals[1] == dq) || (vals[1] == copyVar && vals[0] == dq)):
+								desc = "fill:appends-an-entry-with-a-copy-of-the-grouping"
+							case len(vals) == 2 && ((vals[0] == grouping && vals[1] == dq) || (vals[1] == grouping && vals[0] == dq)):
+								desc = "fill:appends-an-entry-with-the-caller's-own-map"
+							}
+						}
+					}
+				}
+			case *ast.RangeStmt:
+				if norm(x.X) == grouping && x.Key != nil && x.Value != nil && len(x.Body.List) == 1 && copyVar != "" {
+					if as, ok := x.Body.List[0].(*ast.AssignStmt); ok && len(as.Lhs) == 1 && len(as.Rhs) == 1 &&
+						norm(as.Lhs[0]) == copyVar+"["+norm(x.Key)+"]" && norm(as.Rhs[0]) == "slices.Clone("+norm(x.Value)+")" {
+						cloned = true
+					}
+				}
+			}
+		}
+		out = append(out, desc)
+	}
+	return out
 }
